@@ -43,6 +43,7 @@ class RealWorld:
         self.bare = os.path.join(self.dir, 'o%s.git' % os.path.basename(self.dir)[8:])
         self.sha = {}
         self.atom_of = {}
+        self.third_party_heads = {}   # what a third party last wrote, by ref
         self._build()
 
     def _build(self):
@@ -121,9 +122,11 @@ class RealWorld:
 
     def third_party_create(self, name, atom):
         git(self.bare, 'update-ref', 'refs/heads/' + name, self.sha[atom])
+        self.third_party_heads[name] = self.sha[atom]
 
     def third_party_set(self, name, sha):
         git(self.bare, 'update-ref', 'refs/heads/' + name, sha)
+        self.third_party_heads[name] = sha
 
     def third_party_commit_on(self, name):
         """Append a new commit on top of branch `name` (server side)."""
@@ -131,6 +134,7 @@ class RealWorld:
         tree = git(self.bare, 'rev-parse', tip + '^{tree}')
         c = git(self.bare, 'commit-tree', tree, '-p', tip, '-m', 'third party commit')
         git(self.bare, 'update-ref', 'refs/heads/' + name, c)
+        self.third_party_heads[name] = c
         return c
 
     def cleanup(self):
@@ -156,6 +160,12 @@ class RealHost:
             if full.startswith(sha) or sha.startswith(full):
                 return s
         return self.default
+
+    def get_build_url(self, sha, key):
+        return 'http://build'
+
+    def get_commit_url(self, sha):
+        return 'http://commit'
 
     def get_pull_request(self, pid):
         pid = int(pid)
